@@ -584,6 +584,102 @@ func headerCase(i int64, cx *ctx) {
 	}
 }
 
+// ---- non-canonical integers inside chain types ----
+
+// The integer fields of transactions, accounts and block infos, sent as a string with leading zero bytes
+// whose total payload length sits around the decoder's size classes. Every padded form must be rejected
+// (it would be a second wire form of the same transaction / account, same hash); the unpadded control
+// must be accepted.
+
+type txRawMirror struct {
+	Nonce   uint64
+	Price   []byte
+	Gas     uint64
+	To      []byte
+	Amount  []byte
+	Payload []byte
+	V, R, S []byte
+}
+
+type accountRawMirror struct {
+	Nonce    uint64
+	Balance  []byte
+	Root     [32]byte
+	CodeHash []byte
+}
+
+type blockInfoRawMirror struct {
+	GasUsed  uint64
+	Rewards  []byte
+	Receipts []*receiptStorageMirror
+	Bloom    [256]byte
+}
+
+var (
+	ncFields = []string{"tx.Price", "tx.Amount", "tx.V", "tx.R", "tx.S", "account.Balance", "blockinfo.Rewards"}
+	ncTotals = []int{0, 2, 8, 9, 31, 32, 33, 34, 55, 56, 57, 65, 256} // total payload length after padding; 0 = unpadded control
+	ncValues = [][]byte{{0xff}, fill(32, 0xab), fill(31, 0xff), fill(8, 0x80)}
+	ncRadix  = []int{len(ncFields), len(ncTotals), len(ncValues)}
+)
+
+func noncanonIntCase(i int64, cx *ctx) {
+	d := make([]int, len(ncRadix))
+	par.MixedRadix(i, ncRadix, d)
+	field, total, val := ncFields[d[0]], ncTotals[d[1]], ncValues[d[2]]
+	if total != 0 && total <= len(val) {
+		return // cannot pad this value to that length
+	}
+	x := val
+	if total != 0 {
+		x = append(make([]byte, total-len(val)), val...)
+	}
+	cx.st.add("evaluations", 1)
+	cx.st.add("chain_cases", 1)
+	cx.st.add("noncanonical_int_chain_cases", 1)
+	cx.st.dist("distinct_nontrivial", fmt.Sprintf("ncint|%s|%d|%d", field, total, len(val)))
+	one := []byte{1}
+	var enc []byte
+	var dst interface{}
+	family := "Transaction"
+	switch {
+	case field[:3] == "tx.":
+		m := txRawMirror{Nonce: 1, Price: one, Gas: 21000, To: fill(20, 0x11), Amount: one, Payload: []byte{1, 2}, V: []byte{27}, R: one, S: one}
+		switch field {
+		case "tx.Price":
+			m.Price = x
+		case "tx.Amount":
+			m.Amount = x
+		case "tx.V":
+			m.V = x
+		case "tx.R":
+			m.R = x
+		case "tx.S":
+			m.S = x
+		}
+		enc, _, _ = encG(&m)
+		dst = new(types.Transaction)
+	case field == "account.Balance":
+		family = "StateAccount"
+		enc, _, _ = encG(&accountRawMirror{Nonce: 1, Balance: x, Root: types.EmptyRootHash, CodeHash: types.EmptyCodeHash[:]})
+		dst = new(types.StateAccount)
+	default:
+		family = "BlockInfo"
+		enc, _, _ = encG(&blockInfoRawMirror{GasUsed: 1, Rewards: x})
+		dst = new(types.BlockInfo)
+	}
+	err, pan := decK(enc, dst)
+	rc := replayCase{Part: "chain", Type: "NoncanonicalInt", Index: int(i)}
+	switch {
+	case pan != "":
+		cx.col.add(sigOf(family, "leading-zero-int", "panic"), pan, rc)
+	case total == 0 && err != nil:
+		cx.col.add(sigOf(family, "canonical-int-control", "canonical-rejected"), fmt.Sprintf("%s = %x (canonical) rejected: %v", field, x, err), rc)
+	case total != 0 && err == nil:
+		cx.col.add(sigOf(family, "leading-zero-int", "noncanonical-accepted"),
+			fmt.Sprintf("%s sent as a %d-byte string with %d leading zero byte(s) (%s) is accepted: a second wire form of the same %s", field, total, total-len(val), trunc(hx(x), 80), family), rc)
+	}
+}
+
 func chainFamilies() []chainCase {
 	return []chainCase{
 		{"Transaction", par.Product(txRadix), txCase},
@@ -591,5 +687,6 @@ func chainFamilies() []chainCase {
 		{"Log", 3, logCase},
 		{"StateAccount", par.Product(acRadix), accountCase},
 		{"Header", par.Product(hdRadix), headerCase},
+		{"NoncanonicalInt", par.Product(ncRadix), noncanonIntCase},
 	}
 }
